@@ -67,6 +67,8 @@ func bindValues() []zoo.Named {
 		{"map-user-badtype", map[string]any{"id": "not-a-number", "name": 5}},
 		{"map-nested", map[string]any{"a": map[string]any{"b": []any{1, "x", nil}}}},
 		{"map-empty", map[string]any{}},
+		{"map-12-entries", map[string]any{"k00": 0, "k01": 1, "k02": 2, "k03": 3, "k04": 4, "k05": 5, "k06": 6, "k07": 7, "k08": 8, "k09": 9, "k10": 10, "id": 11}},
+		{"map-string-int-9-entries", map[string]int{"a": 1, "b": 2, "c": 3, "d": 4, "e": 5, "f": 6, "g": 7, "h": 8, "id": 9}},
 		{"map-string-int", map[string]int{"id": 3}},
 		{"map-int-key", map[int]string{1: "a"}},
 		{"map-bool-key", map[bool]int{true: 1}},
